@@ -173,11 +173,12 @@ class Session:
         domain on the real code), frame.
 
         fallback: () -> {"reproduced": bool, ...}, a native run of the real function against the independent oracle of the same contract.  It is used only when
-        the current source left the deductive engine's subset (UNKNOWN / outside subset): a failing native input then refutes the obligation; if the native run
+        the obligation is UNDECIDED on the current source (it left the deductive engine's subset, or the solvers could not discharge a premise): a failing native input
+        then refutes the obligation; if the native run
         agrees with the oracle the obligation is recorded as a BOUNDED stand-in for this run (labelled so, never counted as discharged) instead of undecided."""
         self.under_contract(*functions)
         r = self._run(name, fn)
-        if fallback is not None and r.status == UNKNOWN and r.backend == "engine" and "outside subset" in r.detail:
+        if fallback is not None and r.status == UNKNOWN:
             t = time.time()
             try:
                 rep = fallback()
@@ -185,7 +186,7 @@ class Session:
                 rep = None
                 r.detail += " | bounded fall-back crashed: " + traceback.format_exc()[-400:]
             if isinstance(rep, dict) and rep.get("reproduced"):
-                r = Result(REFUTED, "runtime-contract", "the source left the deductive engine's subset (%s); the bounded fall-back (native run against the contract's oracle) fails: %s"
+                r = Result(REFUTED, "runtime-contract", "the obligation is undecided on this source (%s); its bounded fall-back (native run against the contract's oracle) fails: %s"
                            % (r.detail[:300], json.dumps(_jsonable(rep))[:1500]), witness_id="fallback:" + name, replay=rep, time_s=time.time() - t)
             elif isinstance(rep, dict):
                 self.bounded.append({"name": name + " [fall-back]", "label": "bounded", "bound": "deductive obligation undecided on this source (%s); native runs of the real function "
